@@ -253,13 +253,17 @@ func c20Differential(c *c20Case, builtin, loaded map[ipfix.ElementKey]ipfix.Info
 // ---------------------------------------------------------------- phase 3: the model stays what it was, whatever is decoded
 
 const c20HistoryRule = " | phase 3 (histories, TestC20History): 1..8 operations drawn from {decode a generated NetFlow v9 scenario, decode a generated IPFIX scenario, decode a generated sFlow / NetFlow v5 datagram, " +
-	"load scripts/ipfix.elements through the real loader, run the loader on a directory without the file}; the scenarios are generated from and their expected records computed with the element types of golden/ipfix_registry.json; " +
+	"load scripts/ipfix.elements through the real loader, run the loader on a directory without the file}; in half of the scenario operations the loader (with or without the file) runs between the scenario's announcement messages and its data; the scenarios are generated from and their expected records computed with the element types of golden/ipfix_registry.json; " +
 	"after every operation the live information model must equal the registry snapshot entry by entry (key set, name, type, FieldID) and every scenario must decode to the golden-typed reference; a history case is non-trivial when it has >= 2 different kinds of operation"
 
 type c20Op struct {
-	Op  string         `json:"op"` // nf9 | ipfix | sflow | nf5 | load-file | load-absent
-	Sc  *wire.Scenario `json:"sc,omitempty"`
-	Raw wire.Hex       `json:"raw,omitempty"`
+	Op string `json:"op"` // nf9 | ipfix | sflow | nf5 | load-file | load-absent
+	// Across ("load-file" | "load-absent", scenario operations only): the loader runs after the scenario's announcement
+	// messages have been decoded and before its data is — templates learned under one way of installing the model are
+	// used under the other
+	Across string         `json:"across,omitempty"`
+	Sc     *wire.Scenario `json:"sc,omitempty"`
+	Raw    wire.Hex       `json:"raw,omitempty"`
 }
 
 type c20History struct {
@@ -380,8 +384,22 @@ func (r *c20Rig) run(h *c20History) (v verdict, sig string, err error) {
 			if op.Sc == nil || op.Sc.Main.Proto != op.Op {
 				return v, "", fmt.Errorf("bad case: scenario of op %d", i)
 			}
-			if _, s, e := runScenarioDecode(op.Sc); e != nil {
-				return v, "decode-" + s, fmt.Errorf("operation %d (%s scenario, expected records computed with the registry's types): %v", i, op.Op, e)
+			var between func() error
+			if op.Across != "" {
+				dir := map[string]string{"load-file": r.fileDir, "load-absent": r.emptyDir}[op.Across]
+				if dir == "" {
+					return v, "", fmt.Errorf("bad case: across %q", op.Across)
+				}
+				between = func() error { return ipfix.LoadExtElements(dir) }
+				v.label(true, "templates-learned-before-a-load-used-after")
+				v.label(len(op.Sc.Pre) > 0, "announced-before-the-load")
+			}
+			if _, s, e := runScenarioDecodeWith(op.Sc, between); e != nil {
+				what := ""
+				if op.Across != "" {
+					what = ", the loader (" + op.Across + ") run between its announcements and its data"
+				}
+				return v, "decode-" + s, fmt.Errorf("operation %d (%s scenario%s, expected records computed with the registry's types): %v", i, op.Op, what, e)
 			}
 		case "sflow":
 			if _, _, perr := decodeSFlow(op.Raw, nil); perr != nil {
@@ -438,6 +456,7 @@ func TestC20History(t *testing.T) {
 			case "nf9", "ipfix":
 				sc := envs[op.Op].GenScenario(t, 2, 3)
 				op.Sc = &sc
+				op.Across = rapid.SampledFrom([]string{"", "", "load-file", "load-absent"}).Draw(t, "across")
 			case "sflow":
 				d := wire.GenSFDatagram(t)
 				op.Raw = d.Bytes()
